@@ -17,8 +17,9 @@ def _alarm(signum, frame):
     raise Watchdog()
 
 
-def run_scenario(steps, backend="z3", limit_s=20):
-    """steps: list of {"a": ...}.  Returns the list of events."""
+def run_scenario(steps, backend="z3", limit_s=20, standin=True):
+    """steps: list of {"a": ...}.  Returns the list of events.  For the native module backends a correct stand-in
+    solver (harness/standin.py) is installed for the duration of the scenario."""
     events = []
     if backend == "z3":
         from .graph_replay import _z3_limit
@@ -29,6 +30,11 @@ def run_scenario(steps, backend="z3", limit_s=20):
     saved = {k: getattr(cspuz.config, k) for k in ("solver_timeout",)}
     signal.signal(signal.SIGALRM, _alarm)
     try:
+        if backend in ("csugar", "enigma_csp", "cspuz_core") and standin:
+            from .standin import NativeStandIn
+            with NativeStandIn() as st:
+                st.attach(solver)
+                return _run(steps, backend, limit_s, solver, vs, events, touched, limited)
         return _run(steps, backend, limit_s, solver, vs, events, touched, limited)
     finally:
         for k, v in saved.items():
